@@ -5,6 +5,7 @@ import Feox.Drv.Cache
 import Feox.Drv.Proto
 import Feox.Drv.Conc
 import Feox.Drv.Pin
+import Feox.Drv.InFlight
 /-! `feoxdrv` — the Lean side of the correspondence check: reads one operation per line on
 stdin, runs the executable models, prints one answer line per input line.  Imports models
 only (no Mathlib, no proof files), so it links as a native executable. -/
@@ -17,6 +18,7 @@ structure Drv where
   dur : Drv.ProtoDrv.St := {}
   conc : Drv.ConcDrv.St := {}
   pin : Conc.Pin.State := {}
+  ifl : Conc.InFlight.Set := {}
 
 def stepLine (d : Drv) (line : String) : IO (Drv × String) := do
   match (line.trimAscii.toString.splitOn " ").filter (· ≠ "") with
@@ -39,6 +41,10 @@ def stepLine (d : Drv) (line : String) : IO (Drv × String) := do
   | "pin" :: rest =>
     match Drv.PinDrv.handle d.pin rest with
     | some (s, out) => pure ({ d with pin := s }, out)
+    | none => pure (d, "bad-op")
+  | "ifl" :: rest =>
+    match Drv.InFlightDrv.handle d.ifl rest with
+    | some (s, out) => pure ({ d with ifl := s }, out)
     | none => pure (d, "bad-op")
   | "shards" :: rest =>
     match Drv.ProtoDrv.handleShards rest with
